@@ -15,9 +15,9 @@ P1 = [
     (r"(a|\bx)", "UseNFA", "cap"),
     (r"(?m)^ab", "UseNFA", "q"),
     (r"(?m)ab$", "UseNFA", "q"),
-    (r"a*", "UseNFA", "q"),
-    (r"a??", "UseNFA", ""),
-    (r"\b", "UseNFA", ""),
+    (r"a*", "UseNFA", "q e"),
+    (r"a??", "UseNFA", " e"),
+    (r"\b", "UseNFA", " e"),
     (r"a[\x80-\xff]b", "UseNFA", ""),
     (r"(..)(..)", "UseNFA", "cap"),
     # --- UseDFA
@@ -59,9 +59,9 @@ P1 = [
     (r"^ab$", "UseBoundedBacktracker", "q"),
     (r"^(.+)-(\d+)$", "UseBoundedBacktracker", "cap"),
     (r"^\b", "UseBoundedBacktracker", ""),
-    (r"[a-z]*", "UseBoundedBacktracker", "q"),
-    (r"\d?", "UseBoundedBacktracker", ""),
-    (r"^.*$", "UseBoundedBacktracker", ""),
+    (r"[a-z]*", "UseBoundedBacktracker", "q e"),
+    (r"\d?", "UseBoundedBacktracker", " e"),
+    (r"^.*$", "UseBoundedBacktracker", " e"),
     # --- CharClassSearcher
     (r"[a-z]+", "UseCharClassSearcher", "q"),
     (r"\w+", "UseCharClassSearcher", "q"),
@@ -116,6 +116,21 @@ P1 = [
     # --- MultilineReverseSuffix
     (r"(?m)^/.*\.js", "UseMultilineReverseSuffix", "q"),
     (r"(?m)^.*\.ph", "UseMultilineReverseSuffix", ""),
+    # --- structural dimensions found relevant by seeded changes and agent reports
+    (r"[a-c]+aa", "UseReverseSuffix", "q"),            # self-overlapping suffix literal
+    (r"[a-c]+aa[a-c]+", "UseReverseInner", "q"),       # self-overlapping inner literal
+    (r".*(aa|ab)", "UseBoth", ""),
+    (r"(?m)^.*aa", "UseMultilineReverseSuffix", ""),
+    (r".*aa.*", "UseReverseInner", ""),
+    (r"\d+\.\.", "UseReverseSuffix", ""),
+    (r"^é$", "UseBoundedBacktracker", "q"),             # anchored non-ASCII literal
+    (r"\B", "UseNFA", "q e"),
+    (r"$", "UseReverseAnchored", "q e"),
+    (r"(?m)^", "UseNFA", "q e"),
+    (r"()", "UseNFA", "q cap e"),
+    (r"(x*)y", "UseDFA", "q cap"),
+    (r"(a*)+", "UseNFA", "cap e"),
+    (r"[a-z]+?[0-9]+", "UseCompositeSearcher", "q"),    # lazy inside a composite
 ]
 
 # Patterns whose language involves "any character" constructs: the pinned tree
